@@ -926,10 +926,43 @@ func VfInterleave() {
 	zzvf.Assert(err == nil, "setup-old-object")
 	newBody := zzvf.Bytes("new_body", 1)
 	newLen := int64(len(newBody))
-	writerIsDelete := zzvf.Choice("writer", 2) == 1
+	writerKind := zzvf.Choice("writer", 4) // 0 PutObject, 1 DeleteObject, 2 CopyObject from another key, 3 CompleteMultipartUpload
+	writerIsDelete := writerKind == 1
+	var upID string
+	var partTag *string
+	pn1 := int32(1)
+	switch writerKind {
+	case 2:
+		src := "src"
+		_, err := p.PutObject(vfCtx(), s3response.PutObjectInput{Bucket: vfStr("bkt"), Key: &src, Body: bytes.NewReader(newBody), ContentLength: &newLen})
+		zzvf.Assert(err == nil, "setup-copy-source")
+	case 3:
+		up, err := p.CreateMultipartUpload(vfCtx(), s3response.CreateMultipartUploadInput{Bucket: vfStr("bkt"), Key: &key})
+		zzvf.Assert(err == nil, "setup-upload")
+		upID = up.UploadId
+		pr, err := p.UploadPart(vfCtx(), &s3.UploadPartInput{Bucket: vfStr("bkt"), Key: &key, UploadId: &upID, PartNumber: &pn1, Body: bytes.NewReader(newBody), ContentLength: &newLen})
+		zzvf.Assert(err == nil, "setup-part")
+		if err != nil {
+			return
+		}
+		partTag = pr.ETag
+	}
+	newETag := vfQuotedMD5(newBody)
+	if writerKind == 3 && partTag != nil {
+		newETag = backendMultipartETag([]string{*partTag})
+	}
 	writer := func() error {
-		if writerIsDelete {
+		switch writerKind {
+		case 1:
 			_, e := q.DeleteObject(vfCtx(), &s3.DeleteObjectInput{Bucket: vfStr("bkt"), Key: &key})
+			return e
+		case 2:
+			_, e := q.CopyObject(vfCtx(), s3response.CopyObjectInput{Bucket: vfStr("bkt"), Key: &key, CopySource: vfStr("bkt/src"), ExpectedBucketOwner: vfStr(""),
+				MetadataDirective: types.MetadataDirectiveCopy})
+			return e
+		case 3:
+			_, e := q.CompleteMultipartUpload(vfCtx(), &s3.CompleteMultipartUploadInput{Bucket: vfStr("bkt"), Key: &key, UploadId: &upID,
+				MultipartUpload: &types.CompletedMultipartUpload{Parts: []types.CompletedPart{{PartNumber: &pn1, ETag: partTag}}}})
 			return e
 		}
 		_, e := q.PutObject(vfCtx(), s3response.PutObjectInput{Bucket: vfStr("bkt"), Key: &key, Body: bytes.NewReader(newBody), ContentLength: &newLen})
@@ -982,12 +1015,12 @@ func VfInterleave() {
 			zzvf.Assert(zzvf.Or(!present, zzvf.And(coherent, zzvf.BytesEq(data, body2), etag == vfQuotedMD5(body2))), "delete-and-put-leave-nothing-or-the-put")
 		} else {
 			zzvf.Assert(zzvf.And(present, coherent), "two-overwrites-leave-a-complete-object")
-			zzvf.Assert(zzvf.Or(zzvf.And(zzvf.BytesEq(data, body2), etag == vfQuotedMD5(body2)), zzvf.And(zzvf.BytesEq(data, newBody), etag == vfQuotedMD5(newBody))), "two-overwrites-leave-one-of-the-two-objects")
+			zzvf.Assert(zzvf.Or(zzvf.And(zzvf.BytesEq(data, body2), etag == vfQuotedMD5(body2)), zzvf.And(zzvf.BytesEq(data, newBody), etag == newETag)), "two-overwrites-leave-one-of-the-two-objects")
 		}
 		return
 	}
 	isOld := zzvf.And(zzvf.BytesEq(rData, oldBody), rETag == vfQuotedMD5(oldBody))
-	isNew := zzvf.And(zzvf.BytesEq(rData, newBody), rETag == vfQuotedMD5(newBody))
+	isNew := zzvf.And(zzvf.BytesEq(rData, newBody), rETag == newETag)
 	if rPresent {
 		zzvf.Assert(rCoherent, "get-length-matches-body")
 		if writerIsDelete {
@@ -1003,6 +1036,6 @@ func VfInterleave() {
 	if writerIsDelete {
 		zzvf.Assert(!present, "read-after-acknowledged-delete-sees-no-object")
 	} else {
-		zzvf.Assert(zzvf.And(present, zzvf.BytesEq(data, newBody), etag == vfQuotedMD5(newBody)), "read-after-acknowledged-write-sees-it")
+		zzvf.Assert(zzvf.And(present, zzvf.BytesEq(data, newBody), etag == newETag), "read-after-acknowledged-write-sees-it")
 	}
 }
